@@ -119,8 +119,9 @@ def run(repo, rep, tier):
         "statement specifies (half-open intervals, NaN -> nanflow, +-inf to the outermost bins, nearest centre with ties up, "
         "cumulative thresholds, q*weight > 0 for Fraction/Select, None/NaN -> 'NaN'); (R2.3) the generic-case accumulator "
         "updates normalise to the specified functions (weighted sum, weighted mean, parallel-variance increment) and "
-        "Minimize/Maximize mirror each other with `<` for min; (R2.4) Deviate.fill is Average.fill plus statements that only "
-        "touch varianceTimesEntries. The in-range index arithmetic is opaque: that floor(...) picks the numerically right "
+        "the Minimize/Maximize decision tables equal min/max ignoring NaN; (R2.4) a float-class interpretation of Average.fill "
+        "and Deviate.fill over (empty | finite | +inf | -inf | NaN state) x (finite | +inf | -inf | NaN datum) gives the class the "
+        "weighted mean/variance of those data has (opposite infinities -> NaN, any non-finite -> NaN variance). The in-range index arithmetic is opaque: that floor(...) picks the numerically right "
         "bucket for every float is NOT decided, nor is what user quantity functions return."
     )
     rep.not_decided += [
@@ -136,7 +137,7 @@ def run(repo, rep, tier):
     r1 = rep.rule("R2.1", "weight gate: no effect for NaN / non-positive weights (all 19 fill)", floor=19 * 3)
     r2 = rep.rule("R2.2", "routing table per region equals the specified table", floor=80)
     r3 = rep.rule("R2.3", "accumulator updates normalise to the specified functions; min/max mirror", floor=8)
-    r4 = rep.rule("R2.4", "Deviate.fill == Average.fill + statements touching only varianceTimesEntries", floor=1)
+    r4 = rep.rule("R2.4", "Average/Deviate: IEEE class of mean/variance after a fill, all (state class x datum class) pairs", floor=80)
     nregions = 0
     from ..interp import Machine
     Machine.COVERED.clear()
@@ -182,7 +183,7 @@ def run(repo, rep, tier):
                             )
     rep.extra["regions_enumerated"] = nregions
     from .c03 import coverage_guard
-    coverage_guard(repo, prims, names=("fill",))
+    coverage_guard(repo, prims, names=("fill",), rep=rep)
     # ---------------- R2.3 formulas vs specification
     n, m_, s_, q, w = (Rat.sym(x) for x in ("N", "M", "S", "q", "weight"))
     spec = {
@@ -262,30 +263,76 @@ def run(repo, rep, tier):
                         rep.finding("R2.3", fill, fill.node, f"{cname}.fill with `{fld}` {cur_label} and a datum in region `{label}` (relative "
                                     f"to the current {fld}) leaves `{fld}` = {newv!r}; the {'minimum' if smaller else 'maximum'} ignoring "
                                     f"NaN is {want!r}", stmt=f"{fld}: {cur_label}, {label.replace(' ', '')}")
-    # ---------------- R2.4
-    av, dv = repo.cls("Average"), repo.cls("Deviate")
-    fa, fd = repo.own_method(av, "fill"), repo.own_method(dv, "fill")
+    # ---------------- R2.4: non-finite data - the IEEE class of mean (and variance) after one fill, over all class pairs
+    from .. import fclass as fc
+    classes = [("finite", fc.fin()), ("+inf", fc.PINF), ("-inf", fc.NINF), ("nan", fc.NAN)]
 
-    class Strip(ast.NodeTransformer):
-        def drop(self, n, tg):
-            sn = fd.params[0]
-            return all(isinstance(t, ast.Attribute) and isinstance(t.value, ast.Name) and t.value.id == sn and t.attr == "varianceTimesEntries"
-                       for t in tg)
+    def want_mean(state, q):
+        """class of the weighted mean of (previous data summarised by the mean's class) + one more datum"""
+        if state == "empty":
+            return q
+        if "nan" in (state, q):
+            return "nan"
+        if state == "finite":
+            return q
+        if q == "finite" or q == state:
+            return state
+        return "nan"            # +inf and -inf together
 
-        def visit_Assign(self, n):
-            return None if self.drop(n, n.targets) else n
-
-        def visit_AugAssign(self, n):
-            return None if self.drop(n, [n.target]) else n
-
-    da = strip_docstrings(copy.deepcopy(fa.node))
-    dd = Strip().visit(strip_docstrings(copy.deepcopy(fd.node)))
-    for nnode in ast.walk(dd):
-        if hasattr(nnode, "body") and isinstance(nnode.body, list) and not nnode.body:
-            nnode.body = [ast.Pass()]
-    ok = ast.unparse(da.body) == ast.unparse(dd.body) if False else [ast.unparse(x) for x in da.body] == [ast.unparse(x) for x in dd.body]
-    r4.ob(ok, "Deviate.fill minus varianceTimesEntries statements == Average.fill")
-    if not ok:
-        la, ld = [ast.unparse(x) for x in da.body], [ast.unparse(x) for x in dd.body]
-        rep.finding("R2.4", fd, fd.node, "Deviate.fill handles the mean (NaN / infinite / empty cases) differently from Average.fill: the "
-                    "special-value rules for the mean must be the same in both", stmt="Deviate vs Average mean handling")
+    for cname in ("Average", "Deviate"):
+        c = repo.cls(cname)
+        fill = repo.own_method(c, "fill")
+        rep.analysed_functions.add(fill.construct)
+        m = models[cname]
+        sn = fill.params[0]
+        tracked = ["entries", "mean"] + (["varianceTimesEntries"] if cname == "Deviate" else [])
+        wname = fill.params[2] if len(fill.params) > 2 else "weight"
+        reached = set()
+        for state in ["empty"] + [l for l, _ in classes]:
+            for qlabel, qv in classes:
+                env = {wname: fc.fin(1), fill.params[1]: ("obj", "datum")}
+                if state == "empty":
+                    env[f"{sn}.entries"] = fc.fin(0)
+                    env[f"{sn}.mean"] = fc.fin(0)
+                    env[f"{sn}.varianceTimesEntries"] = fc.fin(0)
+                else:
+                    env[f"{sn}.entries"] = fc.fin(1)
+                    env[f"{sn}.mean"] = dict(classes)[state]
+                    env[f"{sn}.varianceTimesEntries"] = fc.fin() if state == "finite" else fc.NAN
+                it = fc.Interp(repo, c, tracked, calls={f"{sn}.quantity": qv})
+                try:
+                    paths = it.run(fill, env)
+                except fc.Unsupported as e:
+                    raise AnalysisError(f"{fill.construct}: float-class interpretation failed: {e}")
+                reached |= it.visited
+                wm = want_mean(state, qlabel)
+                for pth in paths:
+                    if pth.outcome == "raise":
+                        r4.ob(False)
+                        rep.finding("R2.4", fill, fill.node, f"{cname}.fill raises for a numeric datum ({qlabel}) with positive weight",
+                                    stmt=f"raise: {state}/{qlabel}")
+                        continue
+                    got = pth.env[f"{sn}.mean"]
+                    ok = got.label == wm
+                    r4.ob(ok, f"{cname}.fill: mean {state}, datum {qlabel} -> mean {got.label}")
+                    if not ok:
+                        rep.finding("R2.4", fill, fill.node, f"{cname}.fill with a {'n empty node' if state == 'empty' else 'mean that is ' + state} and a datum "
+                                    f"that is {qlabel} leaves `mean` {got.label} (branches taken at lines "
+                                    f"{[ln for ln, b in pth.trail if b]}); the weighted mean of these data is {wm}"
+                                    + (" (opposite infinities cancel to NaN)" if wm == "nan" and "nan" not in (state, qlabel) else ""),
+                                    stmt=f"mean: {state}/{qlabel} -> {got.label}")
+                    if cname == "Deviate":
+                        gv = pth.env[f"{sn}.varianceTimesEntries"]
+                        wv = "finite" if wm == "finite" else "nan"
+                        okv = gv.label == wv
+                        r4.ob(okv, f"Deviate.fill: mean {state}, datum {qlabel} -> varianceTimesEntries {gv.label}")
+                        if not okv:
+                            rep.finding("R2.4", fill, fill.node, f"Deviate.fill with a {'n empty node' if state == 'empty' else 'mean that is ' + state} and a datum "
+                                        f"that is {qlabel} leaves `varianceTimesEntries` {gv.label}; the specification gives {wv} "
+                                        "(any non-finite value makes the variance NaN)", stmt=f"variance: {state}/{qlabel} -> {gv.label}")
+                    ge = pth.env[f"{sn}.entries"]
+                    oke = ge.cls == "fin" and ge.sign == 1
+                    r4.ob(oke, f"{cname}.fill: entries stay finite and positive")
+                    if not oke:
+                        rep.finding("R2.4", fill, fill.node, f"{cname}.fill: `entries` after a fill with positive weight is {ge!r}",
+                                    stmt=f"entries: {state}/{qlabel}")
